@@ -349,6 +349,10 @@ def read_and_expect(ctx, case, root, info):
 
 def check_case(ctx, case):
     probs = []
+    if case['fmt'] == 'names':
+        return check_names(ctx, case)
+    if case['fmt'] == 'select':
+        return check_select(ctx, case)
     root = tempfile.mkdtemp(prefix='c17_', dir=os.environ.get('VERIF_TMP', '/dev/shm' if os.path.isdir('/dev/shm') else None))
     try:
         info = write_set(case, root)
@@ -385,6 +389,110 @@ def check_case(ctx, case):
     return probs
 
 
+# --------------------------------------------------------------------------- names and selection (no files)
+
+def gen_names(rng):
+    """a list of replica / file names as the readers meet them"""
+    kind = rng.choice(['r', 'r_id', 'id', 'id_r', 'fallback', 'fallback', 'mixed'])
+    n = rng.randint(2, 7)
+    pre = rng.choice(['ens', 'run_A', 'b37', 'cA2a'])
+    suf = rng.choice(['', '.ms1.dat', '.dat', '_x'])
+    rs = rng.sample([1, 2, 3, 5, 9, 10, 11, 12, 20, 100], min(n, 10))
+    ids = rng.sample([0, 1, 2, 7, 10, 19, 21, 100, 101], min(n, 9))
+    names = []
+    for k in range(n):
+        r, i = rs[k % len(rs)], ids[k % len(ids)]
+        if kind == 'r':
+            names.append('%sr%d%s' % (pre, r, suf))
+        elif kind == 'r_id':
+            names.append('%sr%d_id%d%s' % (pre, rng.choice(rs[:2]), i, suf))
+        elif kind == 'id':
+            names.append('%s_id%d%s' % (pre.replace('r', 'q'), i, suf.replace('r', 'q')))
+        elif kind == 'id_r':
+            names.append('%sid%dr%d%s' % (pre, rng.choice(ids[:2]), r, suf))
+        elif kind == 'fallback':
+            names.append('%s_%d%s' % (pre.replace('r', 'q'), r, suf.replace('r', 'q')))
+        else:
+            names.append(rng.choice(['%sr%d%s' % (pre, r, suf), '%s_%d%s' % (pre.replace('r', 'q'), i, '')]))
+    names = list(dict.fromkeys(names))
+    if len(names) < 2:
+        names.append(names[0] + '1')
+    rng.shuffle(names)
+    return names
+
+
+def check_names(ctx, case):
+    import re
+    from pyerrors.input.utils import sort_names
+    probs = []
+    names = list(case['names'])
+    try:
+        with quiet():
+            got = sort_names(list(names))
+        how = 'ok'
+    except Exception as e:
+        got, how = type(e).__name__, 'exc'
+    if ctx.lean is not None:
+        rr = ctx.lean.call({'op': 'sortnames', 'names': names})
+        if '_err' in rr:
+            probs.append(('disagree', 'lean-driver-error', rr['_err']))
+        elif ('exc' in rr) != (how == 'exc'):
+            probs.append(('disagree', 'sort-names-model-vs-impl', [rr.get('exc'), got]))
+        elif how == 'ok' and rr['names'] != got:
+            probs.append(('disagree', 'sort-names-model-vs-impl', [rr['names'], got]))
+    if how == 'exc':
+        return probs
+    # the statement: a permutation, numeric (r, id) order, independent of the listing order
+    if sorted(got) != sorted(names):
+        probs.append(('violation', 'sort-names-not-a-permutation', [names, got]))
+        return probs
+    rk = [re.search(r'r(\d+)', x) for x in names]
+    ik = [re.search(r'id(\d+)', x) for x in names]
+    if all(rk) and all(ik):
+        key = lambda x: (int(re.search(r'r(\d+)', x).group(1)), int(re.search(r'id(\d+)', x).group(1)))
+    elif all(rk):
+        key = lambda x: int(re.search(r'r(\d+)', x).group(1))
+    elif all(ik):
+        key = lambda x: int(re.search(r'id(\d+)', x).group(1))
+    else:
+        key = None
+    if key is not None:
+        ks = [key(x) for x in got]
+        if any(ks[i] > ks[i + 1] for i in range(len(ks) - 1)):
+            probs.append(('violation', 'sort-names-not-numeric-order', [got, ks]))
+        if len(set(ks)) == len(ks):
+            rng = __import__('random').Random(case['seed'])
+            for _ in range(3):
+                sh = list(names)
+                rng.shuffle(sh)
+                with quiet():
+                    g2 = sort_names(list(sh))
+                if g2 != got:
+                    probs.append(('violation', 'sort-names-depends-on-listing-order', [sh, g2, got]))
+                    break
+    return probs
+
+
+def check_select(ctx, case):
+    """the model of `data[i0 : i1 + 1][::step]` with indices found by value, against python's own slicing"""
+    probs = []
+    cl = case['cl']
+    kw = {'r_start': case['r_start'], 'r_stop': case['r_stop'], 'r_step': case['r_step']}
+    try:
+        exp = select(cl, kw['r_start'], kw['r_stop'], kw['r_step'])
+    except ValueError:
+        exp = None
+    if ctx.lean is not None:
+        rr = ctx.lean.call(dict({'op': 'select', 'cl': cl}, **kw))
+        if '_err' in rr:
+            probs.append(('disagree', 'lean-driver-error', rr['_err']))
+        elif ('exc' in rr) != (exp is None):
+            probs.append(('disagree', 'select-model-vs-python', [rr.get('exc'), exp]))
+        elif exp is not None and (rr['positions'] != exp or rr['selected'] != [cl[i] for i in exp]):
+            probs.append(('disagree', 'select-model-vs-python', [rr['positions'], exp]))
+    return probs
+
+
 def layout(case, b):
     """header size, payload size per record, chunked? (None for data-dependent layouts)"""
     fmt = case['fmt']
@@ -415,10 +523,22 @@ def run(ctx):
             cases.append(json.load(open(os.path.join(corpus, fn)))['case'])
     for _ in range(n):
         cases.append(gen_case(ctx))
+    for _ in range(n // 2):
+        cases.append({'fmt': 'names', 'names': gen_names(ctx.rng), 'seed': ctx.rng.getrandbits(20)})
+    for _ in range(n // 3):
+        rng = ctx.rng
+        m = rng.randint(3, 25)
+        first, dm = rng.choice([1, 1, 5, 30]), rng.choice([1, 1, 2, 3])
+        cl = [first + i * dm for i in range(m)]
+        if rng.random() < 0.2:
+            cl = sorted(rng.sample(range(1, 80), m))
+        pickv = lambda: rng.choice([None, rng.choice(cl), rng.choice(cl), rng.choice(cl) + (1 if rng.random() < 0.2 else 0)])
+        cases.append({'fmt': 'select', 'cl': cl, 'r_start': pickv(), 'r_stop': pickv(), 'r_step': rng.choice([1, 1, 2, 3, 5])})
     for case in cases:
         ctx.count('fmt=' + case['fmt'])
-        ctx.count('nrep=%d' % len(case['reps']))
-        for k in case['sel']:
+        if 'reps' in case:
+            ctx.count('nrep=%d' % len(case['reps']))
+        for k in case.get('sel', []):
             ctx.count('sel=' + k)
         ctx.case(case)
         for (kind, key, info) in check_case(ctx, case):
